@@ -60,8 +60,13 @@ class FakeDatetimeModule:
         self.timedelta = _real_datetime.timedelta
 
 
+class RestoreWorkLimit(Exception):
+    """deterministic work bound on the restore walk (counted node visits, not wall time)"""
+
+
 class SessionCtx:
     def __init__(self, trigger=None, knobs=None):
+        self.restore_calls = 0
         self.trigger = trigger          # None | ('start',) | ('pop', k) | ('guess', g)
         self.knobs = knobs or {}
         self.fired = False
@@ -211,6 +216,10 @@ def install():
             return orig_create(self, pt, is_honeyword, limit)
         rec = [tuple(tuple(x) for x in pt), ctx.nlines, None]
         ctx.expansions.append(rec)
+        if ctx.knobs.get("stub_expansion"):
+            # large shipped rulesets: the pre-terminal is recorded, its (up to millions of) guesses are not generated
+            rec[2] = 0
+            return 0
         is_m = len(pt) == 1 and pt[0][0] == "M"
         if is_m:
             ctx.omen_count += 1
@@ -252,6 +261,18 @@ def install():
             call[2] = ctx.nlines
 
     pg.PcfgGrammar.restore_omen = restore_omen
+    orig_rec = pg.PcfgGrammar._recursive_restore_prob_order
+
+    def _recursive_restore_prob_order(self, *a, **kw):
+        ctx = _CUR[0]
+        if ctx is not None:
+            ctx.restore_calls += 1
+            lim = ctx.knobs.get("restore_work_limit")
+            if lim is not None and ctx.restore_calls > lim:
+                raise RestoreWorkLimit("restoring the saved session did not finish within %d node visits" % lim)
+        return orig_rec(self, *a, **kw)
+
+    pg.PcfgGrammar._recursive_restore_prob_order = _recursive_restore_prob_order
     _INSTALLED[0] = True
 
 
